@@ -307,8 +307,10 @@ func (e *Engine) checkTupleToSubjectSet(
 				},
 				x.WithToken(prevPage))
 			if err != nil {
+				// The error is reported through the result below; returning
+				// without sending a result would block the caller forever.
 				g.Add(checkgroup.ErrorFunc(err))
-				return
+				break
 			}
 
 			for _, t := range tuples {
